@@ -151,6 +151,12 @@ pub struct Cli {
     /// extra document paths that do not exist
     #[serde(default)]
     pub missing_paths: Vec<String>,
+    /// "update": run `scrut update -y` instead of `scrut test` (clean-up and environment only)
+    #[serde(default)]
+    pub command: Option<String>,
+    /// pass the directory of the main documents instead of the files (order is up to read_dir)
+    #[serde(default)]
+    pub as_directory: bool,
 }
 
 #[derive(Clone, Debug, PartialEq, Eq, Serialize, Deserialize)]
